@@ -317,7 +317,7 @@ def run(ck, tier, rng):
             if eff_zip_fault is None and zip_fault is not None:
                 ck.dist["damaged-bytes-still-a-zip"] = ck.dist.get("damaged-bytes-still-a-zip", 0) + 1
             oracle(ck, members, eff_zip_fault, form, faults, r, detail, meta, rec_for(rel, faults, zip_fault, form))
-        concrete_before = len(ck.violations) + len(ck.known_hits)
+        concrete_before = len(ck.violations)
         diffs, first = 0, None
         slide_access_errors = 0
         reg_checked = reg_diffs = 0
